@@ -113,6 +113,11 @@ func LoadSTL(path string) ([]*sdf.Triangle3, error) {
 	}
 	size := info.Size()
 
+	// a file too short for a binary header can only be ascii (e.g. an empty solid)
+	if size < 84 {
+		return loadSTLAscii(file)
+	}
+
 	// read header, get expected binary size
 	header := STLHeader{}
 	if err := binary.Read(file, binary.LittleEndian, &header); err != nil {
